@@ -290,11 +290,14 @@ def run(prog, ctx):
         if b.term[0] == "switch":
             e = s.operand(b.term[1])
             t = show(e)
-            for fld in ("num_hashes", "num_buckets", "seed", "counts"):
-                if "self." + fld in t and "other." + fld in t:
+            for fld in ("num_hashes", "num_buckets", "seed_hash", "seed", "counts"):
+                import re as _re
+                if _re.search(r"self\." + fld + r"\b", t) and _re.search(r"\w+\." + fld + r"\b", t.replace("self." + fld, "", 1)):
                     eqs.add(fld)
     if {"num_hashes", "num_buckets", "seed"} <= eqs:
         res.discharged += 1
+    elif "seed" not in eqs and "seed_hash" in eqs:
+        res.violate("C08.M", "C08.M|compat", "merge checks the 16-bit seed hash instead of the seed: sketches with different seeds (different bucket functions) whose hashes collide are summed cell by cell", mrg.id)
     else:
         res.undecided += 1      # compatibility is a documented precondition; its check may live in a helper
     # iterator / zip forms: both sides of every zip over the two tables must start at the same offset
